@@ -399,6 +399,28 @@ class Exec:
             self.stats['paths'] += 1
         return results
 
+    def run_single(self, setup, decisions):
+        """re-execute exactly one path (the given decision sequence); returns its PathResult"""
+        self.reset_path(decisions)
+        r = PathResult()
+        try:
+            fname, args = setup(self)
+            r.ret = self.call(fname, args)
+            r.status = 'ret'
+        except Panic as p:
+            r.status = 'panic:' + p.name
+            r.detail = p.detail
+        except MemoryError_ as m:
+            r.status = 'memerr:' + m.kind
+            r.detail = m.detail
+        r.pc = list(self.pc)
+        r.objs = self.objs
+        r.decisions = list(self.taken)
+        r.ex = self
+        r.trace = self.trace
+        r.named = dict(getattr(self, 'named', {}))
+        return r
+
     # ---------------------------------------------------------------- calls
     def call(self, name, args):
         self.stats['calls'] += 1
@@ -421,6 +443,21 @@ class Exec:
         for rx, kind in PANIC_PATTERNS:
             if rx.search(name):
                 raise Panic(kind, demangle_hint(name) + ' called from ' + (self.fnstack[-1] if self.fnstack else '?'))
+        if 'sync4once' in name and name.endswith('4Once4call'):
+            # std::sys::sync::once::futex::Once::call(&self, ignore_poison, f: &mut dyn FnMut(&OnceState), location):
+            # single-threaded model - run the initialiser through the closure's vtable (call_mut at +32), mark COMPLETE (0)
+            once, _ign, data, vt = args[0], args[1], args[2], args[3]
+            vo, voff = self.access(vt, 40, 8, False)
+            fptr = self.read_bytes(vo, voff + 32, 8)
+            fo, foff = self.decode(fptr)
+            if fo is None or fo.kind != 'func':
+                raise Inconclusive('Once::call: cannot resolve the closure')
+            st = self.new_obj(16, 8, 'OnceState', 'alloca', True, init=T.const(0, 128))
+            self.stats['once_inits'] = self.stats.get('once_inits', 0) + 1
+            self.call(fo.func, [data, self.ptr(st)])
+            oo, ooff = self.access(once, 4, 4, True)
+            self.write_bits(oo, ooff, T.const(0, 32))
+            return None
         if name in ('memcmp', 'bcmp'):
             n = args[2]
             if not T.is_const(n):
